@@ -346,7 +346,9 @@ def route_rules(tier="quick"):
                 "interruptquery": {"switchon": "true"}, "uppermemusepct": {"limit": "90"}, "parallelbatch": {"enabled": "true"},
                 "write_stream_points_enable": {"switchon": "true"}, "failpoint": {"point": "c19-fp", "switchon": "true", "term": "return(true)"},
                 "backup_status": {}, "abort_backup": {}}
-        add(r"^POST /debug/ctrl$", ADMINREQ, {"mod=" + m: (lambda m, p: lambda c: dict(params=dict(p, mod=m)))(m, p) for m, p in mods.items()})
+        # the administrator reference names the mod without its parameters: it passes the admin check and is then refused by the
+        # parameter check (400), so the reference cannot switch the server into a mode that disturbs the rest of the sweep
+        add(r"^POST /debug/ctrl$", ADMINREQ, {"mod=" + m: (lambda m, p: lambda c: dict(params={"mod": m} if c.scratch else dict(p, mod=m)))(m, p) for m, p in mods.items()})
         add(r"^GET /query$", READ1, {"select-chunked": lambda c: dict(params={"db": c.db, "q": "select * from " + MST, "chunked": "true", "chunk_size": "1"}),
                                       "select-async": lambda c: dict(params={"db": c.db, "q": "select * from " + MST, "async": "true"}),
                                       "select-pretty-epoch": lambda c: dict(params={"db": c.db, "q": "select * from " + MST, "pretty": "true", "epoch": "ms"})})
@@ -1068,7 +1070,7 @@ def run_case(world, case, creds, rep, only=None):
             if st in (401, 403) and ref_st not in (401, 403):
                 rep["counters"]["sufficient_rejected"] += 1
                 if len(rep["sufficient_rejected"]) < 40:
-                    rep["sufficient_rejected"].append("%s -> %s %s" % (key, st, body[:120].decode("latin1")))
+                    rep["sufficient_rejected"].append("%s -> %s %s" % (key, st, body[:260].decode("latin1")))
             if control:
                 W.repair_control()
             W.after_sufficient()
@@ -1127,6 +1129,9 @@ def run_case(world, case, creds, rep, only=None):
             pass
         elif rejected:
             rep["counters"]["rejected_401_403"] += 1
+        elif 300 <= st < 400:
+            # a redirect (the router's path cleaning) serves nothing: not an acceptance; the state was checked above
+            rep["counters"]["redirected_not_served"] += 1
         elif st >= 400:
             if st == ref_st:
                 rep["counters"]["rejected_before_authorisation_same_as_admin"] += 1
@@ -1526,12 +1531,26 @@ def run_replay(path, s1, scratch, rep, deadline_at):
     return 1 if rep["n_violations"] else 0
 
 
-CLAIMED = False
+# CLAIMED once the check is clean on the unchanged tree (exit 0, KNOWN-FINDING lines allowed).
+CLAIMED = True
 MANIFEST = dict(
     level="exploration",
     engine="enumx + black-box driver",
-    technique="exhaustive enumeration of the live route table x credential classes x transports and of all statement kinds with "
-              "RequiredPrivileges, against a real ts-server with authentication on; digest oracle",
-    text="",
-    note="",
+    technique="exhaustive enumeration of a finite table on the real server: every route of the live gorilla mux (walked in-package, per "
+              "product type) and every /debug prefix of ServeHTTP x request variants x 8 credential classes x 4 credential transports, and "
+              "every statement type that declares RequiredPrivileges (go/ast) x the same classes; oracle = HTTP status + catalogue/data "
+              "digest taken with administrator credentials before and after every request + stored-value sentinels in the answer",
+    text="The route table is read from the running code (mux walk of NewHandler with auth on, basic and logkeeper product types; an "
+         "in-process probe tells which routes are wrapped by authenticate()). Against real ts-server processes with auth-enabled = true, a "
+         "shared secret, an administrator and a fixed privilege matrix, every (route, method, request variant) and every statement kind is "
+         "sent with no, malformed, unknown-user, wrong-password, read-only, write-only, other-database and administrator credentials over "
+         "basic, URL, Token and bearer transports. Insufficient credentials must be turned away (401/403 or error-only results), must leave "
+         "the catalogue+data digest, the server-control probe and the file system probe unchanged and must not return stored values; "
+         "GRANT/REVOKE must flip exactly one user's ability on exactly one database. Exhaustive over the finite table; statement types "
+         "without a parseable example are listed as uncovered.",
+    note="Trusts: the digest observes every effect (SHOW statements, raw rows of the fixture databases, login/write probes); the rule table "
+         "that assigns a needed privilege to non-/query routes and the floor table for statements (c19.py); one example per statement type. "
+         "Not covered: arrow-flight port, ts-meta/ts-store HTTP ports, TLS/white-list, user lock-out timing, rwuser accounts, log-store "
+         "reads with stored records (records cannot be written in this environment). Known findings on the unchanged tree: POST /failpoint "
+         "and POST /api/v1/tsdb/{tsdb} (fixes proposed), /debug/pprof anonymous, log-store management API without authorisation.",
 )
